@@ -91,6 +91,17 @@ def check_eq(cal, rnd, findings_classes, seen):
     for other in (None, 3, "x", {}, [], object()):
         if eq(cal, other) is not False:
             msgs.append(f"== {other!r} gives {eq(cal, other)!r} (expected False)")
+    # non-components that ARE mappings with the component's own items (both operand orders), and an empty component against {}
+    import collections
+    for label, other in (("dict(component)", dict(cal)), ("OrderedDict(component.items())", collections.OrderedDict(cal.items()))):
+        if eq(cal, other) is not False or eq(other, cal) is not False:
+            msgs.append(f"a component compares equal to the non-component {label}: {eq(cal, other)!r} / {eq(other, cal)!r} (expected False)")
+    for kind in ("VEVENT", "X-EMPTY"):
+        e0 = make(kind)
+        for k in list(e0.keys()):
+            del e0[k]
+        if eq(e0, {}) is not False or eq({}, e0) is not False:
+            msgs.append(f"an empty {kind} compares equal to {{}}: {eq(e0, {})!r} / {eq({}, e0)!r} (expected False)")
     v = shuffled(cal, rnd)
     if eq(cal, v) is not True or eq(v, cal) is not True:
         msgs.append("not equal to a copy with permuted subcomponents / property insertion order / name case")
